@@ -267,7 +267,7 @@ CLAIMED["C05"] = dict(
          "symbolically) - exploration, no theorem. Structural clause: expec(no shift) - expec(shift) = <d>_gs^(n) sum_I X_I Y_I for "
          "diagonal blocks and 0 for coupling blocks, accepted by checkEquiv for all Hamiltonians, operator matrices and amplitude "
          "vectors; default operator string per variant. Assembly clause (all Hamiltonians, operator matrices, amplitude vectors): "
-         "trans_moment_space of the lowest class of pp / ip / ea to second order is accepted by checkEquiv as equal to X_I sum N(k) "
+         "trans_moment_space and the diagonal expec_block_contribution of the lowest class of pp / ip / ea to second order are accepted by checkEquiv as equal to X_I [Y_J] sum N(k) "
          "(<I~(a)|d|psi(c)> - <d>_gs^(b) <I~(a)|psi(c)>) evaluated by the proved Lean Wick model from the code's operator-level intermediate states.",
     note=TB + "No Lean spec of the ISR (see C03). Mixed left/right variants (Properties(l_isr, r_isr) of different ADC variants on one ground state) are covered by two clauses decided by the proved checker: a number-conserving operator has no matrix element between intermediate states of different particle number, and transition moments requested for the left / right ISR equal those of the single-variant object (which the main clause ties to explicit intermediate states). Trusted: harness/isr_oracle.py, harness/detspace.py, the statement of the normalisation. mp partitioning; orders as enumerated.")
 
